@@ -1,5 +1,5 @@
 (* C16 - Packet type dispatch follows the first byte and header flags are preserved. *)
-From MQ Require Import Model.Stream Proofs.BytesP Proofs.VbP Proofs.StreamP Proofs.FrameP Proofs.DispatchP.
+From MQ Require Import Model.Stream Proofs.BytesP Proofs.VbP Proofs.StreamP Proofs.FrameP Proofs.DispatchP Model.ReadIR Proofs.ReadIRP gen.GenRead gen.SyncRead.
 
 (* For each of the 256 first bytes and every body: if the frame is
    accepted, the packet has the type selected by the upper four bits;
@@ -36,3 +36,16 @@ Example C16_example :
                [OB true; OB true; ON 1; OS [x74]; ON 5; OB false; ON 0; ON 0; OS []; OS []; OS [];
                 OS [xaa]; OL []; OL []].
 Proof. eexists. split; vm_compute; reflexivity. Qed.
+
+(* Which struct ReadRemaining allocates for which first byte, and that every
+   type but Undefined is given the first byte (`&T{fixed: f.fixed}`), is read
+   off the source on every run: the switch `byte(f.fixed) & 0b1111_0000` with
+   its fifteen cases and its default is regenerated as a table
+   (gen/GenRead.v); it is the table the model holds, and dispatching by it is
+   Stream.fresh_pkt - the allocation C16_dispatch is proved about - for every
+   first byte. *)
+Theorem C16_dispatch_is_the_source :
+  (g_dispatch_mask = dispatch_mask /\ g_dispatch_table = dispatch_table /\ g_dispatch_default = dispatch_default) /\
+  forall x : Byte.byte, dispatch_run (b2n x) = fresh_pkt (b2n x).
+Proof. exact (conj sync_dispatch dispatch_is_fresh). Qed.
+Print Assumptions C16_dispatch_is_the_source.
